@@ -205,7 +205,9 @@ func genOps(prop string, r *Rng, n int, tier string, emit func(string)) {
 		for i := 0; i < n; i++ {
 			k := allKinds[r.Intn(len(allKinds))]
 			p := genValue(r, k, prop == "C02" && r.Chance(1, 7))
-			switch r.Intn(7) {
+			switch r.Intn(8) {
+			case 7: // a forwarder inserting a packet of its own
+				emit("relay " + hx(genRelayDatagram(r)))
 			case 6: // own decoder round trip
 				emit(opWith("rto", p))
 			case 0:
@@ -511,6 +513,18 @@ func genOps(prop string, r *Rng, n int, tier string, emit func(string)) {
 				emit("reenc " + hx(genXRBytes(r)))
 			}
 		}
+		// blocks of 64 KiB and more (block length >= 16383 words): 16-bit octet arithmetic does not hold them
+		for reps := map[bool]int{false: 1, true: 4}[thorough]; reps > 0; reps-- {
+			v := &rtcp.ExtendedReport{SenderSSRC: uint32(r.Bits(32, 32))}
+			u := &rtcp.UnknownReportBlock{Bytes: r.Bytes(4 * r.Pick(16383, 16384, 16390))}
+			u.XRHeader.BlockType = rtcp.BlockTypeType(r.Pick(0, 9, 200))
+			v.Reports = append(v.Reports, genXRBlock(r, false), u, genXRBlock(r, false))
+			emit(encOp(v))
+			emit(opWith("rto", v))
+			if b, err := safeMarshal(v); err == nil {
+				emit("dec.XR " + hx(b))
+			}
+		}
 	case "C16":
 		for i := 0; i < n; i++ {
 			switch r.Intn(12) {
@@ -640,6 +654,12 @@ func genOps(prop string, r *Rng, n int, tier string, emit func(string)) {
 				}
 			}
 			emit(fmt.Sprintf("hist %s %d %s", packetTokens(p), len(ops), strings.Join(ops, " ")))
+			if r.Chance(1, 5) {
+				emit("relay " + hx(genRelayDatagram(r)))
+			}
+			if r.Chance(1, 5) {
+				emit(genHoldOp(r))
+			}
 		}
 	default:
 		panic("unknown property " + prop)
@@ -718,4 +738,61 @@ func twccWithDelta(typ uint16, d int64) *rtcp.TransportLayerCC {
 	pl := int(rtcp.VerifTWCCPacketLen(t))
 	t.Header = rtcp.Header{Padding: size != pl, Count: rtcp.FormatTCC, Type: rtcp.TypeTransportSpecificFeedback, Length: uint16(size/4 - 1)}
 	return t
+}
+
+// a datagram as a forwarder sees it: often led by a packet of unregistered type (decoded as a RawPacket aliasing
+// the receive buffer), followed by packets whose re-encoding may differ from the received bytes
+func genRelayDatagram(r *Rng) []byte {
+	var d []byte
+	if r.Chance(2, 3) {
+		b := hdrBytes(false, int(r.Bits(5, 5)), r.Pick(192, 199, 208, 211, 255), 0)
+		b = append(b, r.Bytes(4*r.Len(3))...)
+		d = append(d, finish(b)...)
+	} else {
+		d = append(d, validFrame(r, allKinds[r.Intn(len(allKinds))])...)
+	}
+	for n := 1 + r.Intn(3); n > 0; n-- {
+		if r.Bool() {
+			f := strings.Fields(genVariantOp(r))
+			if len(f) >= 2 && f[1] != "-" {
+				if b, err := hex.DecodeString(f[1]); err == nil && countFrames(b) >= 1 {
+					d = append(d, b...)
+					continue
+				}
+			}
+		}
+		d = append(d, validFrame(r, allKinds[r.Intn(len(allKinds))])...)
+	}
+	return d
+}
+
+var holdKinds = []string{"DELTA", "TCHUNK", "HDR", "RREP", "ITEM", "CHUNK"}
+
+func genHoldOp(r *Rng) string {
+	one := func(k string) string {
+		w := &W{}
+		switch k {
+		case "DELTA":
+			d := genDelta(r, uint16(1+r.Intn(2)), false)
+			return fmt.Sprintf("%d %d", d.Type, d.Delta)
+		case "TCHUNK":
+			putTwccChunk(w, genTwccChunk(r, false))
+		case "HDR":
+			putHeader(w, genHeader(r, false))
+		case "RREP":
+			putRRep(w, genRRep(r, false))
+		case "ITEM":
+			putItem(w, genItem(r, false))
+		case "CHUNK":
+			putChunk(w, genChunk(r, false))
+		default:
+			return bodyTokens(genValue(r, k, false))
+		}
+		return w.String()
+	}
+	k := allKinds[r.Intn(len(allKinds))]
+	if r.Bool() {
+		k = holdKinds[r.Intn(len(holdKinds))]
+	}
+	return "hold." + k + " " + one(k) + " | " + one(k)
 }
